@@ -325,6 +325,9 @@ def depends(rep, repo):
     c03.bounds(rep, K)
     c03.siblings(rep, K)
     c01.wiring_rules(rep, repo)
+    # the capture routines read `c_caps[...]` entries of the waveform at `c_locs[...]`: location and capacity tables of the memory map (C08)
+    from checks import c08
+    c08.map_rules(rep, repo)
 
 
 def thorough(rep, repo):
